@@ -239,8 +239,12 @@ def main(argv=None) -> int:
     if errors or inconclusive:
         ev['coverage']['harness_errors'] = len(errors)
         ev['coverage']['inconclusive'] = [r['inconclusive'] for r in inconclusive][:5]
-    os.makedirs(os.path.join(VERIF_ROOT, 'evidence'), exist_ok=True)
-    with open(os.path.join(VERIF_ROOT, 'evidence', f'{pid}.json'), 'w') as f:
+    # evidence/ only ever describes runs against /repo itself; runs against a scratch copy (mutation audit)
+    # write theirs under .work/
+    evdir = os.path.join(VERIF_ROOT, 'evidence') if os.path.realpath(REPO) == '/repo' else \
+        os.path.join(VERIF_ROOT, '.work', 'evidence-scratch')
+    os.makedirs(evdir, exist_ok=True)
+    with open(os.path.join(evdir, f'{pid}.json'), 'w') as f:
         json.dump(ev, f, indent=1, sort_keys=True)
         f.write('\n')
 
